@@ -184,6 +184,7 @@ static FunctionSignature *parse_function_signature(Stage1Parser *p) {
     sig->param_struct_names = NULL;
     sig->return_type = TYPE_UNKNOWN;
     sig->return_struct_name = NULL;
+    sig->return_fn_sig = NULL;  /* the error paths below free the signature: every pointer must be initialised */
     
     /* Parse parameter types */
     tok = current_token(p);
@@ -1387,7 +1388,15 @@ static ASTNode *parse_primary(Stage1Parser *p) {
             int line = tok->line;
             int column = tok->column;
             advance(p);  /* consume 'not' */
+            /* unary chains recurse through parse_primary without passing parse_expression's depth guard */
+            if (++p->recursion_depth > MAX_RECURSION_DEPTH) {
+                parser_error(p, line, column, "Error at line %d, column %d: Expression recursion depth exceeded maximum (%d).\n",
+                        line, column, MAX_RECURSION_DEPTH);
+                p->recursion_depth--;
+                return NULL;
+            }
             ASTNode *operand = parse_primary(p);
+            p->recursion_depth--;
             if (!operand) return NULL;
             if (parse_postfix_chain(p, &operand) < 0) return NULL;  /* not p.ok  is  not (p.ok) */
             ASTNode *not_node = create_node(AST_PREFIX_OP, line, column);
@@ -1403,7 +1412,15 @@ static ASTNode *parse_primary(Stage1Parser *p) {
             int line = tok->line;
             int column = tok->column;
             advance(p);  /* consume '-' */
+            /* unary chains recurse through parse_primary without passing parse_expression's depth guard */
+            if (++p->recursion_depth > MAX_RECURSION_DEPTH) {
+                parser_error(p, line, column, "Error at line %d, column %d: Expression recursion depth exceeded maximum (%d).\n",
+                        line, column, MAX_RECURSION_DEPTH);
+                p->recursion_depth--;
+                return NULL;
+            }
             ASTNode *operand = parse_primary(p);
+            p->recursion_depth--;
             if (!operand) return NULL;
             if (parse_postfix_chain(p, &operand) < 0) return NULL;  /* -p.x  is  -(p.x) */
             ASTNode *neg_node = create_node(AST_PREFIX_OP, line, column);
